@@ -40,7 +40,7 @@ def main():
       version=1,
       setup_cmd=('/venv/bin/pip install -q --no-index --find-links /opt/veriftools/wheels hypothesis >/dev/null 2>&1; '
                  '/venv/bin/pip install -q --no-index --find-links /opt/veriftools/wheels --target /verif/.deps atheris '
-                 '>/dev/null 2>&1; cd /verif && /venv/bin/python -m vf.build rel asan'),
+                 '>/dev/null 2>&1; cd /verif && /venv/bin/python -m vf.build rel asan noavx fuzz tsan'),
       hooks=dict(guard='MUJOCO_VERIF_HOOKS', enable='no source hooks: checks compile /repo working tree directly '
                  '(vf/build.py) and observe through public/MJAPI symbols, shims and pre-included headers',
                  baseline_off_cmd='cd /repo && /venv/bin/python -m pytest -ra -q -p no:cacheprovider --timeout=900 '
